@@ -1156,12 +1156,13 @@ func init() {
 		section{"quoting", tiered(1, 4), c06Quoting},
 		section{"keywords", tiered(1, 1), c06Keywords},
 		section{"zones", tiered(40000, 1500000), c06Zone},
+		concurrentSection("C06"),
 	)
 	core.Register(&core.Monitor{
 		ID: "C06", Level: "exploration", Plan: plan, Run: run, Terminates: true,
 		Rule: "model record lists (14 regular types) rendered by an independent zone writer that picks per record among equivalent spellings: absolute/relative/@/omitted owner, TTL explicit (decimal or unit suffixes) or omitted exactly where $TTL / last stated TTL / configured default yields the value, class omitted/IN/CLASS1 in either order, keyword case, TYPEnnn, " +
 			"parentheses with line breaks and comments, blank and comment lines, $ORIGIN (absolute and relative) and $TTL placement, $GENERATE (ranges, steps, $, ${offset[,width[,base]]}) expanded independently, $INCLUDE trees up to depth 7 from an in-memory FS with and without an origin argument; " +
-			"parser options: origin given/given without dot/absent, default TTL set or not, include FS; the 7x8 TTL-state x line-shape matrix enumerated; oracle: parser output == the list the text was rendered from; non-trivial = distinct zone text",
+			"parser options: origin given/given without dot/absent, default TTL set or not, include FS; the 7x8 TTL-state x line-shape matrix enumerated; oracle: parser output == the list the text was rendered from; the same operations called from 8 goroutines at once give the results they give alone; non-trivial = distinct zone text",
 		Assumptions: []string{"after $GENERATE or $INCLUDE the next record is written with an explicit owner, and with an explicit TTL unless a $TTL is in force (the statement leaves those cases open)", "records inside included files carry explicit TTLs unless a $TTL is in force (the file is spliced in)"},
 		MinObserved: []string{"zones", "records_expected", "matrix_cells", "quoting_cases", "keyword_cases"},
 	})
